@@ -22,7 +22,7 @@ PROP = "C18"
 LEVEL = "exploration"
 BUDGET = {
     "quick": {"budget_s": 45, "chunk": 40, "shrink_s": 40},
-    "thorough": {"budget_s": 900, "chunk": 60, "shrink_s": 120},
+    "thorough": {"budget_s": 900, "chunk": 6, "shrink_s": 120, "chunk_wall": 900.0},
 }
 RULE = (
     "cases: (ids) 1-3 concurrent creator tasks per side x 1-6 creations each (newchannel / remote_exec) with 0-3 line "
